@@ -32,7 +32,7 @@ def call_str(name, params, reqs=None):
         elif k in ("relc", "mark_heads_rulefile"):
             parts.append("%s=%s" % (k, proto.enc_s(str(v))))
         elif k == "keep":
-            parts.append("keep=%s" % ";".join(proto.enc_s(x) for x in str(v).split(",")))
+            parts.append("keep=%s" % "!".join(proto.enc_s(x) for x in str(v).split(",")))
         else:
             parts.append("%s=%s" % (k, v))
     if reqs is not None:
